@@ -1,9 +1,7 @@
 SPECIFICATION Spec
-CONSTANTS MaxRuns = 3 MaxTouch = 1
-  Scens <- ScenGroup2
-  Settings <- SettingsDefault
+CONSTANTS
+  Plans <- PlansThoroughExport2
   CreatedSetsChanged = TRUE
-  Reuses = {FALSE, TRUE}
   AutoReload = TRUE
   KeepHistory = TRUE
 INVARIANT Emitted
